@@ -146,7 +146,6 @@ func (ts *treeStorage) GetRoster(id RosterID) *Roster {
 // Close forces cleaning goroutines to be shutdown
 func (ts *treeStorage) Close() {
 	ts.Lock()
-	defer ts.Unlock()
 
 	// prevent further call to remove because the server is closing anyway
 	ts.closed = true
@@ -155,7 +154,10 @@ func (ts *treeStorage) Close() {
 		close(c)
 		delete(ts.cancellations, k)
 	}
+	ts.Unlock()
 
+	// Wait without the lock: a removal whose timer has already fired needs
+	// it to finish, and would otherwise block forever.
 	ts.wg.Wait()
 }
 
